@@ -233,6 +233,11 @@ def single_case(line):
 
 def run(chk, tier):
     if os.environ.get("C20_CASE"):
+        # a reproduction aid, not a run of the check: the evidence file of the last real run is put back afterwards
+        import atexit
+        evp = os.path.join(vlib.VERIF, "evidence", "C20.json")
+        old = open(evp).read() if os.path.exists(evp) else None
+        atexit.register(lambda: old is not None and open(evp, "w").write(old))
         res, bad = single_case(os.environ["C20_CASE"])
         chk.add_tlc("single-case", res)
         chk.traces = 1
@@ -283,7 +288,7 @@ def run(chk, tier):
     # (C) random formulas: inputs from the seed, judged by TLC
     nf4, nq4, nf10, nq10 = (60000, 20000, 6000, 3000) if thorough else (2500, 1200, 300, 200)
     first += replay_script(ctx, pool, drv, "dnf", "dnfRnd4", c20_gen.random_dnf_cases(seed + 7, 4, nf4, nq4, 3, 5), 12)
-    first += replay_script(ctx, pool, drv, "dnf", "dnfRnd10", c20_gen.random_dnf_cases(seed + 8, 10, nf10, nq10, 3, 6), 90, natoms=10)
+    first += replay_script(ctx, pool, drv, "dnf", "dnfRnd10", c20_gen.random_dnf_cases(seed + 8, 10, nf10, nq10, 3, 6), 300, natoms=10)
 
     futs = list(first)
     for g in gens:
